@@ -149,7 +149,10 @@ func checkSchema(c schemaCase) error {
 	}
 	fd, err := build(fdp, c.Via)
 	if err != nil {
-		return fmt.Errorf("harness: generated schema does not build via %s: %v", c.Via, err)
+		// Not a harness error: the generator emits disjoint ranges, distinct numbers and unique names by
+		// construction, and protodesc validates through the same lazily sorted range sets and lookup
+		// maps this property is about (FieldRanges.CheckValid / CheckOverlap, ByNumber, Names.Has).
+		return fmt.Errorf("schema that is valid by construction is rejected via %s: %v", c.Via, err)
 	}
 	w := &walker{file: fd, extra: c.Extra}
 	return w.checkFile()
